@@ -361,6 +361,11 @@ func (interp *Interpreter) cfg(root *node, sc *scope, importPath, pkgName string
 					lv.gen = loopVarFor
 				}
 			}
+			if isLoopBody(n) {
+				// The statements of a loop body have their own scope, nested in the scope of the
+				// per-iteration variables of the loop: they can be redeclared in the body.
+				sc = sc.pushBloc()
+			}
 
 			// Pre-define symbols for labels defined in this block, so we are sure that
 			// they are already defined when met.
@@ -836,22 +841,6 @@ func (interp *Interpreter) cfg(root *node, sc *scope, importPath, pkgName string
 					// A blank destination never denotes an existing variable: it always gets
 					// a fresh frame location, with the type of its own source.
 					if dest.ident != "_" && (sc.global && isGlobalDefine(n) || sc.isRedeclared(dest)) {
-						if n.anc != nil && n.anc.anc != nil && (len(forInitVars(n.anc.anc)) > 0 || n.anc.anc.kind == rangeStmt) {
-							// check for redefine of for loop variables, which are now auto-defined in go1.22
-							var fi *node // for ident
-							if n.anc.anc.kind == rangeStmt {
-								fi = n.anc.anc.child[0]
-							}
-							for _, v := range forInitVars(n.anc.anc) {
-								if v.ident == dest.ident {
-									fi = v
-								}
-							}
-							if fi != nil && dest.ident == fi.ident {
-								n.gen = nop
-								break
-							}
-						}
 						// Do not overload existing symbols (defined in GTA) in global scope.
 						sym, _, _ = sc.lookup(dest.ident)
 					}
@@ -1238,6 +1227,9 @@ func (interp *Interpreter) cfg(root *node, sc *scope, importPath, pkgName string
 				n.sym = l.sym
 				n.typ = l.typ
 				n.rval = l.rval
+			}
+			if isLoopBody(n) {
+				sc = sc.pop()
 			}
 			sc = sc.pop()
 
@@ -2697,6 +2689,12 @@ func forInitVars(n *node) []*node {
 		}
 	}
 	return nil
+}
+
+// isLoopBody returns true if block statement n is the body of a for or range statement
+// which declares variables.
+func isLoopBody(n *node) bool {
+	return n.anc != nil && (n.anc.kind == rangeStmt || len(forInitVars(n.anc)) > 0)
 }
 
 // loopVarBody sets the body of for statement n to work on per-iteration copies of the
